@@ -17,14 +17,75 @@ type schedStore struct {
 	mu   sync.Mutex
 	fsm  dbsm.IConcurrentStateMachine
 	next uint64
+	// batching: the next batchN proposals are handed to the state machine in ONE Update call, in arrival order (what
+	// dragonboat does with proposals that were committed together)
+	batchN int
+	queue  []pendingProposal
+	enq    chan struct{}
+	// results of an applied batch, handed to the proposers one at a time by the scheduler (deliver) so that the order
+	// in which their calls continue is the order of the batch
+	held    []pendingProposal
+	heldRes []proposalResult
 }
 
-func newSchedStore() *schedStore { return &schedStore{fsm: kv.NewLFSM()(1, 1), next: 1} }
+type pendingProposal struct {
+	cmd []byte
+	res chan proposalResult
+}
+
+type proposalResult struct {
+	r   dbsm.Result
+	err error
+}
+
+func newSchedStore() *schedStore {
+	return &schedStore{fsm: kv.NewLFSM()(1, 1), next: 1, enq: make(chan struct{}, 16)}
+}
+
+// deliver hands the i-th proposer of the last applied batch its result.
+func (s *schedStore) deliver(i int) {
+	s.mu.Lock()
+	p, r := s.held[i], s.heldRes[i]
+	s.mu.Unlock()
+	p.res <- r
+}
+
+// beginBatch: the next n proposals are applied together.
+func (s *schedStore) beginBatch(n int) {
+	s.mu.Lock()
+	s.batchN = n
+	s.mu.Unlock()
+}
 
 func (s *schedStore) propose(u kv.Update) (dbsm.Result, error) {
 	s.mu.Lock()
-	defer s.mu.Unlock()
 	b, _ := json.Marshal(u)
+	if s.batchN > 0 {
+		p := pendingProposal{cmd: b, res: make(chan proposalResult, 1)}
+		s.queue = append(s.queue, p)
+		if len(s.queue) == s.batchN {
+			es := make([]dbsm.Entry, len(s.queue))
+			for i, q := range s.queue {
+				es[i] = dbsm.Entry{Index: s.next, Cmd: q.cmd}
+				s.next++
+			}
+			res, err := s.fsm.Update(es)
+			s.heldRes = nil
+			for i := range s.queue {
+				if err != nil {
+					s.heldRes = append(s.heldRes, proposalResult{err: err})
+				} else {
+					s.heldRes = append(s.heldRes, proposalResult{r: res[i].Result})
+				}
+			}
+			s.held, s.queue, s.batchN = s.queue, nil, 0
+		}
+		s.mu.Unlock()
+		s.enq <- struct{}{}
+		r := <-p.res
+		return r.r, r.err
+	}
+	defer s.mu.Unlock()
 	res, err := s.fsm.Update([]dbsm.Entry{{Index: s.next, Cmd: b}})
 	s.next++
 	if err != nil {
